@@ -86,7 +86,7 @@ func writeLatest(tx stoabs.WriteTx, id did.DID, metadata documentMetadata) error
 // The conflicted count and total number of documents statistic is updated here as well.
 // These need to be updated here since all reading of current stats have to happen before any writing is done.
 // This ensures the same behaviour between bbolt and redis.
-func (tl *store) applyFrom(tx stoabs.WriteTx, base *event, applyList []event) error {
+func (tl *store) applyFrom(tx stoabs.WriteTx, id did.DID, base *event, applyList []event) error {
 	var document *did.Document
 	var metadata *documentMetadata
 	var err error
@@ -103,6 +103,15 @@ func (tl *store) applyFrom(tx stoabs.WriteTx, base *event, applyList []event) er
 	if len(cBytes) > 0 {
 		conflictedCount = binary.BigEndian.Uint32(cBytes)
 	}
+	// The DID may already be conflicted, also when the new event is inserted before all known events (base == nil).
+	b, err := conflictedWriter.Get(stoabs.BytesKey(id.String()))
+	if err != nil && !errors.Is(err, stoabs.ErrKeyNotFound) {
+		return err
+	}
+	if len(b) > 0 {
+		// it was already conflicted
+		conflicted = true
+	}
 
 	if base != nil {
 		// get DID Document and documentMetadata for base
@@ -117,14 +126,6 @@ func (tl *store) applyFrom(tx stoabs.WriteTx, base *event, applyList []event) er
 			return fmt.Errorf("read metadata failed: %w", err)
 		}
 		metadata = &m
-		b, err := conflictedWriter.Get(stoabs.BytesKey(document.ID.String()))
-		if err != nil && !errors.Is(err, stoabs.ErrKeyNotFound) {
-			return err
-		}
-		if len(b) > 0 {
-			// it was already conflicted
-			conflicted = true
-		}
 	}
 
 	for _, nextEvent := range applyList {
